@@ -10,17 +10,17 @@ Theorem c01_marshal_total o t v :
   has_type t v = true -> no_bad_keys v = true -> exists ts, marshal o t v = Ok ts.
 Proof. exact (marshal_total_strong o t v). Qed.
 
-(* marshalling v and unmarshalling the stream into a zero T yields the equivalent value, whatever follows in the stream.  Hypotheses: no_ptr_to_nil (the known finding: a non-nil pointer to a nil pointer is not expressible on the wire) and reg_ok (a REGISTERED defined type whose underlying type is a pointer or time.Time does not round-trip: see the two _refuted theorems) *)
+(* marshalling v and unmarshalling the stream into a zero T yields the equivalent value, whatever follows in the stream.  Hypothesis no_ptr_to_nil is the known finding (a non-nil pointer to a nil pointer is not expressible on the wire).  Registered types of every underlying type are included (the two counterexamples of an earlier version of this file - a registered named pointer type, a registered time.Time - were reproduced on the code and repaired in /repo commit 7c4eea8; they are the positive examples below) *)
 Theorem c01_roundtrip_tokens_partial pf o R t v ts rest :
-  wf_ty t = true -> simple_ty t = true -> reg_ok t = true ->
+  wf_ty t = true -> simple_ty t = true ->
   has_type t v = true -> no_ptr_to_nil v = true ->
   marshal default_opts t v = Ok ts ->
   exists f, unm pf f o R t (zero t) (ts ++ rest) = Ok (normal t v, rest).
-Proof. exact (roundtrip_simple_partial pf o R t v ts rest). Qed.
+Proof. exact (roundtrip_simple pf o R t v ts rest). Qed.
 
 (* with an explicit fuel bound *)
 Theorem c01_roundtrip_tokens_fuel pf o R t v ts rest f :
-  wf_ty t = true -> simple_ty t = true -> reg_ok t = true ->
+  wf_ty t = true -> simple_ty t = true ->
   has_type t v = true -> no_ptr_to_nil v = true ->
   marshal default_opts t v = Ok ts -> (2 * vsize v < f)%nat ->
   unm pf f o R t (zero t) (ts ++ rest) = Ok (normal t v, rest).
@@ -28,31 +28,51 @@ Proof. exact (roundtrip_simple_fuel pf o R t v ts rest f). Qed.
 
 (* for values in normal form the round trip is the identity *)
 Theorem c01_roundtrip_exact pf o R t v ts rest :
-  wf_ty t = true -> simple_ty t = true -> reg_ok t = true ->
+  wf_ty t = true -> simple_ty t = true ->
   has_type t v = true -> no_ptr_to_nil v = true -> canonical_val t v ->
   marshal default_opts t v = Ok ts ->
   exists f, unm pf f o R t (zero t) (ts ++ rest) = Ok (v, rest).
 Proof. exact (roundtrip_simple_exact pf o R t v ts rest). Qed.
 
-(* a registered named POINTER type: the nil value comes back non-nil (TypeName P, Nil is read through the pointer first) *)
-Theorem c01_registered_pointer_refuted  :
-  exists pf o R t v ts,
-    wf_ty t = true /\ simple_ty t = true /\ has_type t v = true /\ no_ptr_to_nil v = true /\
-    marshal default_opts t v = Ok ts /\
-    forall f, unm pf f o R t (zero t) (ts ++ []) <> Ok (normal t v, []).
-Proof. exact (roundtrip_simple_refuted ). Qed.
+(* a registered named POINTER type: the nil value marshals to TypeName P, Nil and comes back nil *)
+Theorem c01_registered_pointer_roundtrip pf o R rest :
+  marshal default_opts RegPtr (GPtr None) = Ok [T KTypeName (VStr [80]); T KNil VNone] /\
+  exists f, unm pf f o R RegPtr (zero RegPtr) ([T KTypeName (VStr [80]); T KNil VNone] ++ rest) = Ok (GPtr None, rest).
+Proof. exact (roundtrip_regptr_nil pf o R rest). Qed.
 
-(* a registered time.Time (any registered Binary/TextUnmarshaler): the bridge meets the TypeName token and reports a mismatch *)
-Theorem c01_registered_time_refuted  :
-  exists pf o R t v ts,
-    wf_ty t = true /\ simple_ty t = true /\ has_type t v = true /\ no_ptr_to_nil v = true /\
-    marshal default_opts t v = Ok ts /\
-    forall f, unm pf f o R t (zero t) (ts ++ []) <> Ok (normal t v, []).
-Proof. exact (roundtrip_simple_refuted_time ). Qed.
+(* and a non-nil one comes back with its pointee *)
+Theorem c01_registered_pointer_nonnil pf o R rest :
+  exists f, unm pf f o R RegPtr (zero RegPtr) ([T KTypeName (VStr [80]); T KInt (VI WNat 7)] ++ rest)
+            = Ok (GPtr (Some (GInt 7)), rest).
+Proof. exact (roundtrip_regptr_nonnil pf o R rest). Qed.
+
+(* a registered time.Time (any registered Binary/TextUnmarshaler): the type name is skipped before the bridge reads the string token *)
+Theorem c01_registered_time_roundtrip pf o R rest :
+  marshal default_opts RegTime (GTime zero_time) = Ok [T KTypeName (VStr [84]); T KString (VStr zero_time)] /\
+  exists f, unm pf f o R RegTime (zero RegTime) ([T KTypeName (VStr [84]); T KString (VStr zero_time)] ++ rest)
+            = Ok (GTime zero_time, rest).
+Proof. exact (roundtrip_regtime pf o R rest). Qed.
+
+(* non-vacuity: a nested value (arrays of pointers to structs with unexported fields, NaN, nil bytes, nil slice, time, pointer to pointer) meets every hypothesis *)
+Theorem c01_example_hypotheses  :
+  wf_ty ExOuter = true /\ simple_ty ExOuter = true /\
+  has_type ExOuter ex_outer = true /\ no_ptr_to_nil ex_outer = true /\
+  exists ts, marshal default_opts ExOuter ex_outer = Ok ts.
+Proof. exact (roundtrip_ex_hyps ). Qed.
+
+(* and the theorem applied to it *)
+Theorem c01_example_roundtrip  :
+  forall pf o R ts rest,
+  marshal default_opts ExOuter ex_outer = Ok ts ->
+  exists f, unm pf f o R ExOuter (zero ExOuter) (ts ++ rest) = Ok (normal ExOuter ex_outer, rest).
+Proof. exact (roundtrip_ex_thm ). Qed.
 
 Print Assumptions c01_marshal_total.
 Print Assumptions c01_roundtrip_tokens_partial.
 Print Assumptions c01_roundtrip_tokens_fuel.
 Print Assumptions c01_roundtrip_exact.
-Print Assumptions c01_registered_pointer_refuted.
-Print Assumptions c01_registered_time_refuted.
+Print Assumptions c01_registered_pointer_roundtrip.
+Print Assumptions c01_registered_pointer_nonnil.
+Print Assumptions c01_registered_time_roundtrip.
+Print Assumptions c01_example_hypotheses.
+Print Assumptions c01_example_roundtrip.
